@@ -17,6 +17,16 @@ import (
 // shutdown), boots it again and waits for it to lead.
 func (s *sim) restart(graceful bool, why string) bool {
 	c, cl := s.c, s.cl
+	// a killed process stays around as a zombie (with its whole store) until
+	// the end of the run: bound their number, later restarts are graceful
+	if !graceful && s.nKills >= 12 {
+		graceful = true
+		c.Count("kill_replaced_by_graceful_stop_to_bound_memory", 1)
+	}
+	if !graceful {
+		s.nKills++
+	}
+	s.nRestartTotal++
 	if graceful {
 		c.Fault("stop_graceful")
 		cl.StopGraceful(s.m)
@@ -153,7 +163,7 @@ func (s *sim) nextValid(d1 *dumpT, after string, shape string, afterErr bool) {
 	s.nNext++
 	c.Log("next", "%s -> %s (model %s)", renderStrs(args), o.text(), fmtReply(want))
 	s.invalidate()
-	key2 := "next:" + shape
+	key2 := "next:" + cmdKey(shape)
 	if s.reportPanics(ps, shape, renderStrs(args)) {
 		s.hitShapes[shape] = true
 		return
@@ -184,7 +194,7 @@ func (s *sim) nextValid(d1 *dumpT, after string, shape string, afterErr bool) {
 		}
 	}
 	if st := s.store(); (st.VerifDefaultBatchPending() != 0 || st.VerifIsBatching()) && !noWhiteBox {
-		s.violate("batch-not-empty", "leak:"+shape, "after %s and the valid command %s the shared write batch holds %d operation(s)", after, renderStrs(args), st.VerifDefaultBatchPending())
+		s.violate("batch-not-empty", "leak:"+cmdKey(shape), "after %s and the valid command %s the shared write batch holds %d operation(s)", after, renderStrs(args), st.VerifDefaultBatchPending())
 	}
 	s.base, s.baseR = d2, r1
 }
@@ -214,12 +224,12 @@ func (s *sim) stepValid() {
 		return
 	}
 	if !done {
-		s.violate("command-hangs", "hang:"+shape, "no answer to the valid command %s within 150 fair rounds", sent)
+		s.violate("command-hangs", "hang:"+cmdKey(shape), "no answer to the valid command %s within 150 fair rounds", sent)
 		return
 	}
 	if o.connPanic {
 		c.Probe("conn_closed_by_recover")
-		s.violate("conn-panic", "connpanic:"+shape, "the connection was closed without a reply on the valid command %s", sent)
+		s.violate("conn-panic", "connpanic:"+cmdKey(shape), "the connection was closed without a reply on the valid command %s", sent)
 		return
 	}
 	s.noteHLL(args, !o.isErr && !o.noReply)
@@ -380,14 +390,14 @@ func (s *sim) stepBatch() {
 		return
 	}
 	if !allDone() {
-		s.violate("command-hangs", "hang:"+shape, "a batch containing %s: some command got no answer within 150 fair rounds: %s", sent, strings.Join(line, " ;; "))
+		s.violate("command-hangs", "hang:"+cmdKey(shape), "a batch containing %s: some command got no answer within 150 fair rounds: %s", sent, strings.Join(line, " ;; "))
 		s.hitShapes[shape] = true
 		return
 	}
 	if mo.connPanic {
 		if !hasConnPanic(ps) {
 			c.Probe("conn_closed_by_recover")
-			s.violate("conn-panic", "connpanic:"+shape, "the connection was closed without a reply on %s", sent)
+			s.violate("conn-panic", "connpanic:"+cmdKey(shape), "the connection was closed without a reply on %s", sent)
 		}
 		s.hitShapes[shape] = true
 	}
@@ -422,7 +432,7 @@ func (s *sim) stepBatch() {
 		}
 		nbKeys[mb.key] = true
 		if mb.o.noReply {
-			s.violate("node-stuck", "next:"+shape, "valid command %s in a batch with %s gets %s", renderStrs(mb.args), sent, mb.o.text())
+			s.violate("node-stuck", "next:"+cmdKey(shape), "valid command %s in a batch with %s gets %s", renderStrs(mb.args), sent, mb.o.text())
 			s.hitShapes[shape] = true
 			return
 		}
@@ -438,7 +448,7 @@ func (s *sim) stepBatch() {
 		}
 		want, ttlSet := modelApply(st, mb.args)
 		if !model.Equal(mb.o.replies[0], want) {
-			s.violate("next-command-differs", "next:"+shape, "in one apply batch with %s -> %s, the valid command %s answers %s, the reference model says %s (batch: %s)",
+			s.violate("next-command-differs", "next:"+cmdKey(shape), "in one apply batch with %s -> %s, the valid command %s answers %s, the reference model says %s (batch: %s)",
 				sent, mo.text(), renderStrs(mb.args), mb.o.text(), fmtReply(want), strings.Join(line, " ;; "))
 			s.hitShapes[shape] = true
 		}
@@ -459,11 +469,11 @@ func (s *sim) stepBatch() {
 		}
 	}
 	if df := diffDump(exp, d1); df != "" {
-		s.violate("batch-state-differs", "leak:"+shape, "one apply batch (%s): the state differs from what the commands that answered without error produce in the reference model (expected -> found): %s", strings.Join(line, " ;; "), df)
+		s.violate("batch-state-differs", "leak:"+cmdKey(shape), "one apply batch (%s): the state differs from what the commands that answered without error produce in the reference model (expected -> found): %s", strings.Join(line, " ;; "), df)
 		s.hitShapes[shape] = true
 	}
 	if st := s.store(); (st.VerifDefaultBatchPending() != 0 || st.VerifIsBatching()) && !noWhiteBox {
-		s.violate("batch-not-empty", "leak:"+shape, "after the apply batch (%s) the shared write batch holds %d operation(s) (batching=%v)", strings.Join(line, " ;; "), st.VerifDefaultBatchPending(), st.VerifIsBatching())
+		s.violate("batch-not-empty", "leak:"+cmdKey(shape), "after the apply batch (%s) the shared write batch holds %d operation(s) (batching=%v)", strings.Join(line, " ;; "), st.VerifDefaultBatchPending(), st.VerifIsBatching())
 		s.hitShapes[shape] = true
 	}
 	s.base, s.baseR = d1, s.rawSnap()
@@ -539,23 +549,23 @@ func (s *sim) stepPipeline() {
 		return
 	}
 	if !done {
-		s.violate("command-hangs", "hang:"+shape, "no answer to %s within 150 fair rounds", sent)
+		s.violate("command-hangs", "hang:"+cmdKey(shape), "no answer to %s within 150 fair rounds", sent)
 		s.hitShapes[shape] = true
 		return
 	}
 	if call.conn.closed && len(o.replies) < n && !hasConnPanic(ps) {
 		c.Probe("conn_closed_by_recover")
-		s.violate("conn-panic", "connpanic:"+shape, "the connection handler panicked on %s (connection closed after %d of %d replies)", sent, len(o.replies), n)
+		s.violate("conn-panic", "connpanic:"+cmdKey(shape), "the connection handler panicked on %s (connection closed after %d of %d replies)", sent, len(o.replies), n)
 		s.hitShapes[shape] = true
 	}
 	if o.isErr {
 		if ch := diffRaw(r0, s.rawSnap()); ch != "" {
-			s.violate("error-changed-state", "partial:"+shape, "%s -> %s (every reply an error), yet the store changed: %s", sent, o.text(), ch)
+			s.violate("error-changed-state", "partial:"+cmdKey(shape), "%s -> %s (every reply an error), yet the store changed: %s", sent, o.text(), ch)
 			s.hitShapes[shape] = true
 		}
 	}
 	if st := s.store(); (st.VerifDefaultBatchPending() != 0 || st.VerifIsBatching()) && !noWhiteBox {
-		s.violate("batch-not-empty", "leak:"+shape, "after %s the shared write batch holds %d operation(s)", sent, st.VerifDefaultBatchPending())
+		s.violate("batch-not-empty", "leak:"+cmdKey(shape), "after %s the shared write batch holds %d operation(s)", sent, st.VerifDefaultBatchPending())
 	}
 	if t.Bool(s.cfg.nextPm) {
 		s.nextValid(nil, sent+" -> "+o.text(), shape, o.isErr)
